@@ -30,7 +30,7 @@ CHECKS = {
     technique="TLA+ line-accounting reference (Text.tla) + TLC-generated faulty files and twins replayed into the real parser + TLC trace validation"),
  "C03": dict(
     category="model_checking",
-    text="Static part of C03. TLC generates control-flow / call-graph / label arrangements from Gen_Flow (tlc -simulate over programs of 3..7 instructions in four shapes; exhaustive n=2 in the thorough tier); the real pipeline builds the finished Cfg and TLC validates each recorded graph against CfgRef: successor/predecessor symmetry; every edge justified (fall-through, written label, merge of an additional return into a function exit); every edge the reference requires of a reachable node present (fall-through, branch/jump target, return from call); no edge after an exit ecall; no reference-reachable node reported as unreachable code. The dynamic edge monitor (executed transfers are edges) runs with the machine in C01's check.",
+    text="Static part of C03. TLC generates control-flow / call-graph / label arrangements from Gen_Flow (tlc -simulate over programs of 3..7 instructions in four shapes; exhaustive n=2 in the thorough tier); the real pipeline builds the finished Cfg and TLC validates each recorded graph against CfgRef: successor/predecessor symmetry; every edge justified (fall-through, written label, merge of an additional return into a function exit); every edge the reference requires of a reachable node present (fall-through, branch/jump target, return from call); no edge after an exit ecall; no reference-reachable node reported as unreachable code. Dynamic part: the edge monitor of Machine.tla checks, on executions of Gen_Values/Gen_Flow/corpus programs, that consecutive executed instructions of one frame are joined by an edge and that no executed instruction carries an unreachable-code diagnostic.",
     design_ref="DESIGN.md §5 C03",
     note="Trusted: TLC, CfgRef.tla, harness projection (edges by Rc pointer identity). Exit ecalls taken from the analyzer's own a7 facts (C01 validates them). Domain: no indirect jumps but ret, no path running off the end of the file.",
     technique="TLA+ reference CFG (CfgRef) + TLC-simulated/enumerated flow programs replayed into the real pipeline + TLC trace validation of the recorded graph"),
@@ -46,6 +46,18 @@ CHECKS = {
     design_ref="DESIGN.md §5 C16",
     note="Trusted: TLC, Text.tla slices, harness projection. Single-file programs (visibility = attributed to the base file); multi-file visibility is C15/C18.",
     technique="TLA+ failure contract (Trace_Cfg!JudgeC16) + TLC-generated ill-formed programs replayed into the real pipeline + TLC trace validation"),
+ "C01": dict(
+    category="model_checking",
+    text="Programs sampled by tlc -simulate from Gen_Values (alphabet covering every rule of the value analysis: sp arithmetic, word/byte spills and reloads, constant folding on boundary operands, copies, address loads, ecall results, calls to three convention-respecting callees incl. recursion, forward branches/merges) and Gen_Flow, plus repository and hand-written corpus programs, are analysed by the real pipeline; the recorded in/out register and stack claims are judged by TLC executing each program on the reference RV32IM machine (Machine.tla, call frames, byte-accurate little-endian memory) from 3 initial valuations x 2 environment-call outcomes, evaluating ClaimsTrue before and after every executed instruction.",
+    design_ref="DESIGN.md §5 C01",
+    note="Trusted: TLC, ISA/Words/Machine.tla, harness projection. Judged claim kinds: constant, label address, entry value + constant. Executions leaving the supported subset stop being judged (never a violation). Bounded: sampled programs of <= ~25 instructions, fuel 160, recursion depth 6.",
+    technique="TLA+ executable reference machine with claim monitor + TLC-simulated programs replayed into the real analysis + TLC validation of the recorded facts by execution"),
+ "C02": dict(
+    category="model_checking",
+    text="Static: for every analysed program (same population as C01) TLC recomputes the least solution of the documented liveness equations (Dataflow!LiveLFP, Kleene iteration from empty sets over the recorded graph and function table) and compares every live_in/live_out set, every function's inferred arguments/returns and every unused-value warning with the recorded ones (missing = coverage defect, extra = not forced by the equations). Dynamic: the live monitor of Machine.tla flags any executed read of a register that was reported not-live at some executed instruction since its last definition, with calls/ecalls defining and reading registers as the convention says.",
+    design_ref="DESIGN.md §5 C02",
+    note="Trusted: TLC, Dataflow.tla (transcription of the documented equations, incl. jump-to-function-label = call site), Machine.tla, harness projection. ecall signatures from the analyzer's a7 facts + documented table.",
+    technique="TLA+ least-fixed-point reference (Dataflow!LiveLFP) + executable machine with live monitor + TLC-simulated programs replayed into the real analysis + TLC trace validation"),
 }
 PENDING = "check not built yet in this round (planned, see DESIGN.md §5); not claimed until its check is green on the unchanged tree"
 m = {
